@@ -197,8 +197,16 @@ def make_wrot(scn):
     w = scn.get("wrot")
     if w is None:
         return None
-    if w == "scalar":
+    if w == "scalar":          # Python float
         return 0.5
+    if w == "npscalar":        # NumPy float scalar
+        return np.float64(3.0)
+    if w == "npscalar32":
+        return np.float32(0.25)
+    if w == "zerod":           # 0-d array
+        return np.array(2.0)
+    if w == "one":
+        return 1.0
     ncv = scn["ncv"]
     rng = np.random.default_rng(scn["seed"] + 7)
     m = np.eye(ncv)[rng.permutation(ncv)] * rng.choice([0.5, 1.0, 2.0], ncv)   # scaled permutation: exact in float
@@ -570,7 +578,8 @@ def _serve(conn):
             conn.send(res)
         except BaseException as e:    # noqa: unpicklable result
             conn.send(("exc", "result could not be returned: %r" % (e,), ""))
-    os._exit(0)
+    # normal return: multiprocessing's bootstrap (and coverage.py's hook in it, when a coverage audit is
+    # running) finish their bookkeeping and then _exit the child
 
 
 class Runner:
@@ -591,8 +600,14 @@ class Runner:
         self.proc.start()
         child.close()
 
-    def stop(self):
+    def stop(self, graceful=True):
         if self.proc is not None:
+            if graceful and self.proc.is_alive():
+                try:                       # let the child finish by itself (coverage data, loky shutdown)
+                    self.conn.send(None)
+                    self.proc.join(15)
+                except Exception:
+                    pass
             try:
                 os.killpg(self.proc.pid, signal.SIGKILL)
             except (ProcessLookupError, PermissionError):
@@ -620,12 +635,12 @@ class Runner:
             if not self.conn.poll(tmo):
                 self.hangs += 1
                 self.scale = 0.34
-                self.stop()
+                self.stop(graceful=False)
                 raise RunFailure("Timeout: no result within %.0f s (hang / dead-lock); process group killed" % tmo)
             res = self.conn.recv()
         except (EOFError, OSError, BrokenPipeError) as e:
             code = self.proc.exitcode if self.proc is not None else None
-            self.stop()
+            self.stop(graceful=False)
             raise RunFailure("Crash: the process running the implementation died (exit code %s, %s)"
                              % (code, type(e).__name__))
         if res[0] == "exc":
@@ -853,7 +868,8 @@ def enc_impl(obs, ref, out_rows, offset, rowbytes, ncv, P, probes=()):
             pl.append([min(o[0] for o in cov), max(o[0] for o in cov), winner])
     return ([len(bl), obs["size"]["out"], obs["size"]["rms"], obs["size"]["time"], len(flat_w)]
             + [x for w in flat_w for x in w] + [len(bl)] + [x for b in bl for x in b]
-            + [len(pl)] + [x for q in pl for x in q])
+            + [len(pl)] + [x for q in pl for x in q]
+            + [obs.get("sync_scaled", 0)])
 
 
 # --------------------------------------------------------------------------
@@ -916,9 +932,11 @@ def gen_scenarios(ctx):
         ps = some_ps(4 if ctx.thorough() else 3)
         if q % 3 == 0:
             ps.append(rng.choice([12, 16, 23]))                        # more workers than batches: idle workers
+        # wrot in every accepted form, in turn; scalar forms always with the sync column in the output
+        wform = (None, "scalar", "perm", "npscalar", "zerod", "npscalar32", "one")[q % 7]
         d = scn(ns, nb, ps, ns2add=rng.choice([0, 0, 1, 7, 100]),
-                wrot=rng.choice([None, None, "scalar", "perm"]),
-                nc_out=rng.choice([None, None, None, 8, 5]),
+                wrot=wform,
+                nc_out=(None if wform not in (None, "perm") else rng.choice([None, None, None, 8, 5])),
                 dtype="float32" if q % 7 == 6 else ("int32" if q % 7 == 3 else "int16"),
                 src="cbin" if q % 4 == 2 else "bin", aspath=(q % 3 != 1),
                 gains=(None, "halves", None, "mixed", "halves_rev")[q % 5], slow=(q % 5 in (1, 3, 4)))
@@ -933,7 +951,7 @@ def gen_scenarios(ctx):
         m = rng.randrange(1, max(2, min(lim, 30000 // s)))
         ns = max(9500, min(40000 if ctx.thorough() else 16000, boundary_ns(nb, m)))
         d = scn(ns, nb, some_ps(3), ncv=64, k_filter=(q % 3 != 2), reject=(q % 2 == 0),
-                ns2add=rng.choice([0, 5]), wrot=rng.choice([None, "perm"]), src="cbin" if q % 3 == 1 else "bin",
+                ns2add=rng.choice([0, 5]), wrot=(None, "perm", "npscalar")[q % 3], src="cbin" if q % 3 == 1 else "bin",
                 gains=("halves", None, "mixed")[q % 3], slow=(q % 3 != 1))
         if q == 0:
             d["loky"] = [rng.randrange(2, 7)]
@@ -1077,6 +1095,9 @@ def check_run(ctx, scn, obs, data, ref, ref_prev, tags_base, cases, stats, nbatc
             obs["n_idle_workers"] = 0
         roff = obs["pre"]["rms"] if obs["append"] else 0
         toff = obs["pre"]["time"] if obs["append"] else 0
+        # does the first sync column differ from the source although the run whitens (wrot given)?
+        obs["sync_scaled"] = int(scn.get("wrot") is not None and ncout == ncv + 1 and
+                                 not np.array_equal(rows[:ns, -1].astype(np.int64), data[:, -1].astype(np.int64)))
         probes = pick_probes(ref, ns)
         ci = enc_input(ns, nbatch, obs["P"], ns2add, bool(obs["append"]), obs["pre"]["out"], ncout, dtype.itemsize,
                        ncv, roff, toff) + probes
